@@ -3,6 +3,7 @@ package sd
 import (
 	"encoding/json"
 	"fmt"
+	"github.com/semafind/semadb/shard/index/vamana"
 	"os"
 	"strings"
 	"sync"
@@ -29,10 +30,12 @@ import (
 // its storage transaction began, and TLC (ShardTrace.tla, CSearch) requires it
 // to be exactly that version.
 
-// SchedStep is one action of a behaviour: [action, reader-or-key].
+// SchedStep is one action of a behaviour: [action, reader-or-key] or, for a
+// hand-written WBegin, [action, "", kind of the batch].
 type SchedStep struct {
-	Act string
-	Arg string
+	Act  string
+	Arg  string
+	Kind string
 }
 
 type SchedBehaviour struct {
@@ -63,6 +66,9 @@ func ReadSchedBehaviours(path string) ([]SchedBehaviour, error) {
 			if len(h) > 1 {
 				st.Arg = h[1]
 			}
+			if len(h) > 2 {
+				st.Kind = h[2]
+			}
 			b.Steps = append(b.Steps, st)
 		}
 		out = append(out, b)
@@ -80,6 +86,8 @@ type schedRun struct {
 	snap    map[string]int64    // reader -> over at the moment its transaction began
 	opGate  map[string]bool     // reader -> storage reads inside the search are gates
 	found   map[string]*csearch // reader -> what it got
+	query   map[string]models.Query
+	ranked  map[string][]M // reader -> its ranked answer (graph searches)
 	drift   []string
 }
 
@@ -117,7 +125,7 @@ func (r *Runner) RunSchedBehaviours(behs []SchedBehaviour, stepTimeout time.Dura
 		r.InsertBatch()
 	}
 	for bno, b := range behs {
-		s := &schedRun{r: r, timeout: stepTimeout, snap: map[string]int64{}, opGate: map[string]bool{}, found: map[string]*csearch{}}
+		s := &schedRun{r: r, timeout: stepTimeout, snap: map[string]int64{}, opGate: map[string]bool{}, found: map[string]*csearch{}, query: map[string]models.Query{}, ranked: map[string][]M{}}
 		if err := s.one(bno, b); err != nil {
 			return drifted, err
 		}
@@ -199,6 +207,21 @@ func (s *schedRun) one(bno int, b SchedBehaviour) error {
 		}
 	}
 	defer func() { cache.VerifYield = nil }()
+	// hook H6: a search is also held before every node expansion of its graph walk (a warm search does
+	// no storage read before the back-fill of its answer)
+	vamana.VerifSearchStep = func() {
+		a := s.sched.Actor()
+		if a == "" || a == "w" {
+			return
+		}
+		s.mu.Lock()
+		g := s.opGate[a]
+		s.mu.Unlock()
+		if g {
+			s.sched.Yield(a, "op")
+		}
+	}
+	defer func() { vamana.VerifSearchStep = nil }()
 	r.staleRisk = false
 	defer func() { r.staleRisk = false }()
 	r.TW.Emit("Quiet", M{"what": "schedule", "b": bno, "steps": len(b.Steps)})
@@ -228,12 +251,41 @@ func (s *schedRun) one(bno int, b SchedBehaviour) error {
 	}
 	// the batches of the behaviour are generated up front: a search aims at a point of the batch that is
 	// written next, so that a reader that ought not to see that batch would notice it
+	// (a batch that begins while a search stands between its attach and its end is an insert batch with
+	// vectors, and that search aims at one of its points: if the writer were let through, the search would
+	// walk onto a node its snapshot does not have)
 	var pending []Batch
+	mid := map[int]bool{}
+	delAim := map[int][]float32{}
+	active := map[string]bool{}
 	for _, st := range b.Steps {
-		if st.Act == "WBegin" {
+		switch st.Act {
+		case "RAttachNew", "RAttachShared":
+			active[st.Arg] = true
+		case "REnd":
+			delete(active, st.Arg)
+		case "WBegin":
 			nb := r.GenBatch()
 			for tries := 0; tries < 20 && len(nb.Pts) == 0 && len(nb.IDs) == 0; tries++ {
 				nb = r.GenBatch()
+			}
+			switch {
+			case st.Kind == "delete":
+				mb := max(r.MaxBatch, 3)
+				nb = Batch{Kind: "delete", IDs: r.pickIDs(1+r.R.Intn(mb), 1)}
+				mid[len(pending)] = true
+				for _, id := range nb.IDs {
+					if v, ok := r.believedVals[id][vecProp.Name].([]float32); ok && len(v) == vecProp.Dim && r.believedLive[id] {
+						delAim[len(pending)] = v
+						break
+					}
+				}
+			case st.Kind == "insert":
+				nb = r.GenInsertBatch()
+				mid[len(pending)] = true
+			case len(active) > 0:
+				mid[len(pending)] = true
+				nb = r.GenInsertBatch()
 			}
 			pending = append(pending, nb)
 		}
@@ -242,10 +294,17 @@ func (s *schedRun) one(bno int, b SchedBehaviour) error {
 	startReader := func(a string) {
 		rr := NewRunner(r.Cfg, int64(bno*7+len(a))+r.R.Int63n(1000), nil, r.Dir)
 		vec, _ := rr.G.vec(vecProp.Dim, vecProp.Metric)
-		if len(pending) > 0 && r.R.Intn(4) != 0 {
+		if len(pending) > 0 && (r.R.Intn(4) != 0 || mid[min(begun, len(pending)-1)]) {
+			// (a point the batch deletes: a search that ought to see the batch must not meet it any more)
+			if v := delAim[min(begun, len(pending)-1)]; v != nil {
+				vec = v
+			}
 			for _, pt := range pending[min(begun, len(pending)-1)].Pts {
 				if v, ok := pt.Vals[vecProp.Name].([]float32); ok && len(v) == vecProp.Dim {
 					vec = v
+					if os.Getenv("VERIF_SCHED_DEBUG") != "" {
+						fmt.Fprintf(os.Stderr, "b%d %s aims at %d\n", bno, a, pt.ID)
+					}
 					break
 				}
 			}
@@ -259,6 +318,7 @@ func (s *schedRun) one(bno int, b SchedBehaviour) error {
 		cs := &csearch{kind: "rank"}
 		s.mu.Lock()
 		s.found[a] = cs
+		s.query[a] = q
 		s.mu.Unlock()
 		s.sched.Go(a, func() {
 			res, err := r.Shard.SearchPoints(models.SearchRequest{Query: q, Select: []string{"*"}, Limit: 100})
@@ -266,6 +326,11 @@ func (s *schedRun) one(bno int, b SchedBehaviour) error {
 			if err != nil {
 				cs.err = err.Error()
 				return
+			}
+			if h, ok := r.hits(res, MetricScale(vecProp.Metric)); ok {
+				s.mu.Lock()
+				s.ranked[a] = h
+				s.mu.Unlock()
 			}
 			for _, sr := range res {
 				var m map[string]any
@@ -310,7 +375,7 @@ func (s *schedRun) one(bno int, b SchedBehaviour) error {
 				if w := s.advance(a); w == "@tryR" {
 					s.advance(a) // attach; parks at the first storage read of the search, or at the end
 				}
-			} else {
+			} else if !(st.Act == "RAttachNew" && s.where(a) == "@op") { // (already reading for the object it creates)
 				s.note("%s: attach step but actor at %q", a, s.where(a))
 			}
 		case "RGetShared", "RGetCold":
@@ -318,21 +383,51 @@ func (s *schedRun) one(bno int, b SchedBehaviour) error {
 			if s.where(a) == "@op" {
 				s.advance(a)
 			}
+		case "RUntil":
+			// hand-written schedules: the reader moves on, gate by gate, until it stands inside the named function
+			a := st.Arg
+			for n := 0; n < 400 && !s.parkedIn(a, st.Kind); n++ {
+				if w := s.where(a); w == "done" || w == "" || w == "@end" {
+					s.note("%s never stood in %s (at %q)", a, st.Kind, w)
+					break
+				}
+				s.advance(a)
+			}
 		case "REnd":
 			a := st.Arg
 			s.mu.Lock()
 			s.opGate[a] = false
 			s.mu.Unlock()
-			for n := 0; n < 8 && started[a]; n++ {
+			for n := 0; n < 400 && started[a]; n++ {
 				w := s.where(a)
-				if w == "done" || w == "" {
+				if w == "done" {
 					break
 				}
 				if w == "@end" {
 					s.advance(a)
 					break
 				}
-				s.advance(a)
+				if w != "" {
+					s.advance(a)
+					continue
+				}
+				// running, or waiting for a mutex that another search holds while it is parked inside a storage
+				// read (item caches read through under their lock, a node's neighbours are loaded under the
+				// node's): that search moves on by one gate, this one may overtake it in the gap
+				if w = s.sched.Wait(a, 50*time.Millisecond); w != "" {
+					continue
+				}
+				nudged := false
+				for _, o := range []string{"r1", "r2", "r3"} {
+					if o != a && started[o] && s.where(o) == "@op" {
+						s.advance(o)
+						nudged = true
+						break
+					}
+				}
+				if !nudged {
+					break
+				}
 			}
 			// searches never wait for a writer: the search must be over now, whatever the writer holds
 			// (waiting for the manager's mutex does not count: another search that is creating the cache object
@@ -344,6 +439,31 @@ func (s *schedRun) one(bno int, b SchedBehaviour) error {
 						r.TW.Emit("Err", M{"what": "SearchBlocked", "err": errStr(fmt.Errorf("search %s waits on a lock while the writer is at %q: %s", a, s.where("w"), blocked)), "a": 0, "b": 0})
 					} else {
 						s.note("%s not done after REnd (%q)", a, w)
+					}
+				}
+			}
+			// no write batch in this behaviour so far: the answer of a graph search is a function of the
+			// persisted graph, whatever other searches do to the shared cache meanwhile; it is compared
+			// at once (the rest of the schedule may be the one of known finding C09-a) with a single search
+			// on a cold copy of the file
+			if begun == 0 && started[a] && s.where(a) == "done" && vecProp.Type == models.IndexTypeVectorVamana && !r.Cfg.Mem {
+				s.mu.Lock()
+				mine, ok := s.ranked[a]
+				q := s.query[a]
+				s.mu.Unlock()
+				if ok {
+					if cold, done, err := r.ColdCopy(); err == nil {
+						qc := q
+						vv := *q.VectorVamana
+						vv.Vector = append([]float32{}, vv.Vector...)
+						qc.VectorVamana = &vv
+						res, err := cold.SearchPoints(models.SearchRequest{Query: qc, Limit: 100})
+						done()
+						if ref, ok := r.hits(res, MetricScale(vecProp.Metric)); err == nil && ok {
+							r.TW.Emit("VamanaPair", M{"p": vecProp.Name, "vec": absVec(vv.Vector), "limit": vv.Limit, "ss": vv.SearchSize, "a": mine, "b": ref,
+								"what": "forced/single", "tol": tolFor(vecProp.Metric), "quant": b2i(r.Cfg.Quantised)})
+							r.TW.Flush()
+						}
 					}
 				}
 			}
@@ -382,7 +502,10 @@ func (s *schedRun) one(bno int, b SchedBehaviour) error {
 		case "WAttach":
 			if s.where("w") == "@begin" {
 				if w := s.advance("w"); w == "@wlock" {
-					s.advance("w") // lock taken, the pipeline runs to the end of the closure
+					w2 := s.advance("w") // lock taken, the pipeline runs to the end of the closure
+					if os.Getenv("VERIF_SCHED_DEBUG") != "" {
+						fmt.Fprintf(os.Stderr, "b%d WAttach: w at %q, readers %v\n", bno, w2, map[string]string{"r1": s.where("r1"), "r2": s.where("r2")})
+					}
 				}
 			}
 		case "WPut":
@@ -426,7 +549,11 @@ func (s *schedRun) one(bno int, b SchedBehaviour) error {
 		}
 		snap := s.snap[a]
 		if cs.err != "" {
-			r.TW.Emit("Err", M{"what": "ConcurrentSearch/" + cs.kind, "err": errStr(errString(cs.err)), "a": snap, "b": cs.b})
+			// (risk: in this behaviour a search created or attached the shared cache object with a snapshot older
+			// than the newest commit or while a batch was open, the history of known finding C09-c; nx: the
+			// search met a node that its snapshot does not have)
+			r.TW.Emit("Err", M{"what": "ConcurrentSearch/" + cs.kind, "err": errStr(errString(cs.err)), "a": snap, "b": cs.b,
+				"risk": b2i(r.staleRisk), "nx": b2i(strings.Contains(cs.err, "does not exist") || strings.Contains(cs.err, "not found"))})
 			continue
 		}
 		r.TW.Emit("CSearch", M{"a": snap, "b": snap, "kind": cs.kind, "docs": cs.docs, "who": 0, "sel": []string{}, "forced": 1})
@@ -438,3 +565,39 @@ func (s *schedRun) one(bno int, b SchedBehaviour) error {
 }
 
 var _ diskstore.DiskStore = (*proxy.Store)(nil)
+
+// parkedIn reports whether the actor's goroutine currently has fn on its stack.
+func (s *schedRun) parkedIn(a, fn string) bool {
+	dump := gate.Dump()
+	for id, name := range s.sched.GoIDs() {
+		if name != a {
+			continue
+		}
+		hdr := fmt.Sprintf("goroutine %d [", id)
+		i := strings.Index(dump, hdr)
+		if i < 0 {
+			continue
+		}
+		block := dump[i:]
+		if j := strings.Index(block, "\n\n"); j >= 0 {
+			block = block[:j]
+		}
+		all := true
+		for _, part := range strings.Split(fn, "+") {
+			all = all && strings.Contains(block, part)
+		}
+		if all {
+			return true
+		}
+	}
+	return false
+}
+
+// absVec: the integer form of a generated query vector (generated vectors have integer coordinates)
+func absVec(v []float32) []int {
+	out := make([]int, len(v))
+	for i, x := range v {
+		out[i] = int(x)
+	}
+	return out
+}
